@@ -1,6 +1,6 @@
 import H2.Client.Recv
 import H2.Proofs.HpackEnc
-import H2.Proofs.ClientRunGoAway
+import H2.Proofs.ClientRunCount
 /-!
 # C18 (client half) — SETTINGS are acknowledged one for one and the server's limits persist
 
@@ -331,7 +331,7 @@ example : ∃ c f s, f.stream = 0 ∧ f.body = Frame.Body.settings s ∧ s.ack =
 
 /-! ## the FULL serial model, every run
 
-NEEDS `import H2.Proofs.ClientRunGoAway` at the top of this file. `concurrent_streams_obeyed` above is about one call of
+NEEDS `import H2.Proofs.ClientRunCount` (which imports `H2.Proofs.ClientRunGoAway`) at the top of this file. `concurrent_streams_obeyed` above is about one call of
 `writeRequest`; here: every step of every run of `H2.Client.step` from the connection the driver creates. -/
 
 section FullModel
@@ -351,6 +351,22 @@ theorem Full.concurrent_streams_obeyed_at (c : Conn) (h : Init c) (pre : List Ev
     (hw : writesHeaders (step (run c pre).1 e).2 = true) :
     (run c pre).1.openStreams < ((run c pre).1.maxStreams : Int) :=
   ((Full.concurrent_streams_obeyed c h (pre ++ [e])).at pre hw).1
+
+/-- **Full.counter_covers_table**: in every reachable state the counter `openStreams` is at least the number of streams in
+the table of requests waiting for a response (a stream leaves the table with the counter decremented, or, when its
+request was taken back by its caller first, without; it enters with the counter incremented) -/
+theorem Full.counter_covers_table (c : Conn) (h : Init c) (evs : List Event) :
+    ((run c evs).1.reqQueued.length : Int) ≤ (run c evs).1.openStreams :=
+  run_cnt h evs
+
+/-- **Full.waiting_streams_below_limit**: so, whenever a step of any run writes a HEADERS frame, the streams still waiting
+for their response are fewer than the server's MAX_CONCURRENT_STREAMS as last applied -/
+theorem Full.waiting_streams_below_limit (c : Conn) (h : Init c) (pre : List Event) (e : Event)
+    (hw : writesHeaders (step (run c pre).1 e).2 = true) :
+    (run c pre).1.reqQueued.length < (run c pre).1.maxStreams := by
+  have h1 := Full.concurrent_streams_obeyed_at c h pre e hw
+  have h2 := Full.counter_covers_table c h pre
+  omega
 
 /-- **Full.only_requests_open_streams**: a step that is not a request admitted by `CanOpenStream` writes no HEADERS and
 leaves `nextID` alone; one that is moves `nextID` up by 2 and the HEADERS it writes is its first frame, on the old
